@@ -10,6 +10,7 @@ pub mod c05;
 pub mod c06;
 pub mod c07;
 pub mod c09;
+pub mod c10;
 pub mod c11;
 pub mod c12;
 pub mod c13;
@@ -20,7 +21,7 @@ pub mod c17;
 pub mod c18;
 
 pub fn all() -> &'static [PropDef] {
-    static ALL: &[PropDef] = &[c01::DEF, c02::DEF, c03::DEF, c04::DEF, c05::DEF, c06::DEF, c07::DEF, c09::DEF, c11::DEF, c12::DEF, c13::DEF, c14::DEF, c15::DEF, c16::DEF, c17::DEF, c18::DEF];
+    static ALL: &[PropDef] = &[c01::DEF, c02::DEF, c03::DEF, c04::DEF, c05::DEF, c06::DEF, c07::DEF, c09::DEF, c10::DEF, c11::DEF, c12::DEF, c13::DEF, c14::DEF, c15::DEF, c16::DEF, c17::DEF, c18::DEF];
     ALL
 }
 
